@@ -16,10 +16,25 @@ import (
 )
 
 const (
-	verifDir = "/verif"
-	repoDir  = "/repo"
-	modPath  = "github.com/elastic/go-libaudit/v2"
+	repoDir = "/repo"
+	modPath = "github.com/elastic/go-libaudit/v2"
 )
+
+// verifDir is the directory that holds checks.json, harness/, evidence/ ...: the parent of the
+// directory of this executable (bin/symgo), so that a snapshot of /verif works on its own files.
+var verifDir = func() string {
+	if d := os.Getenv("VERIF_DIR"); d != "" {
+		return d
+	}
+	if exe, err := os.Executable(); err == nil {
+		if d := filepath.Dir(filepath.Dir(exe)); d != "" {
+			if _, err := os.Stat(filepath.Join(d, "checks.json")); err == nil {
+				return d
+			}
+		}
+	}
+	return "/verif"
+}()
 
 // Job is one harness entry explored with one set of bounds.
 type Job struct {
@@ -287,7 +302,7 @@ func cmdCheck(args []string) int {
 	if ms := envInt("SYMGO_DUMP_SLOW", 0); ms > 0 {
 		cfg.RecordQueries = true
 		cfg.SlowQuery = time.Duration(ms) * time.Millisecond
-		cfg.SlowDir = "/verif/.slow"
+		cfg.SlowDir = filepath.Join(verifDir, ".slow")
 	}
 	if sp := os.Getenv("SYMGO_SOLVER"); sp != "" {
 		cfg.SolverPath = sp
